@@ -160,7 +160,7 @@ def _rerun_digests(args):
 # ------------------------------------------------------------------------------------------
 # minimisation
 # ------------------------------------------------------------------------------------------
-def minimise(chk, case, rule, known, budget_runs=2500, budget_s=75.0):
+def minimise(chk, case, rule, known, budget_runs=4000, budget_s=150.0):
     """Greedy delta debugging: keep a smaller case while a violation with the same rule id that
     is not a known finding still occurs."""
     def fails(c):
@@ -197,7 +197,7 @@ def minimise(chk, case, rule, known, budget_runs=2500, budget_s=75.0):
     return case, runs
 
 
-def _schedule_variants(case, k=6):
+def _schedule_variants(case, k=3):
     yield case
     if isinstance(case.get("sched_seed"), int):
         for i in range(k):
